@@ -614,6 +614,20 @@ def rand_lost_attr(rng, tags):
     return {"op": "gs", "path": [["c", c], ["i", i], ["a", a]]}
 
 
+def extra_items_body(rng, tags):
+    """a SendRRData whose item list is not [null address, unconnected data] although it carries a perfectly good
+    request: a third item after the two (eg. the 0x8000 Sockaddr Info that accompanies a Forward Open for an I/O
+    connection), the data item alone, two null items first"""
+    t = rng.choice(tags)
+    req = rng.choice([{"op": "rt", "path": [["s", t["name"]]], "n": 1}, {"op": "ga", "path": [["c", 2], ["i", 1]]},
+                      {"op": "wt", "path": [["s", t["name"]]], "ty": lc.TYPES[t["type"]], "n": 1,
+                       "vals": [lg.ArraySpec.zero(t["type"])]}])
+    data = [0xb2, list(cip_bytes({"req": req}))]
+    extra = lambda: [rng.choice([0x8000, 0x8001, 0, 0x1234]), [rng.randrange(256) for _ in range(rng.choice([0, 16, 16, 3]))]]
+    items = rng.choice([[[0, []], data, extra()], [[0, []], data, extra(), extra()], [data], [[0, []], [0, []], data]])
+    return {"k": "items", "unit": rng.random() < 0.1, "iface": 0, "timeout": rng.choice([5, 0]), "items": items}
+
+
 def rand_items(rng):
     n = rng.choice([0, 1, 1, 2, 3])
     items = []
@@ -640,7 +654,7 @@ def rand_frame(rng, tags, route_cfg, used, fail, end):
             {"k": "xcmd", "cmd": rng.choice([0, 2, 0x67, 0x72, 0x99, 0xffff]),
              "data": [rng.randrange(256) for _ in range(rng.choice([0, 0, 3]))]},
             {"k": "regshort", "data": [1, 0, 0][:rng.randrange(4)]},
-            rand_items(rng)])
+            rand_items(rng), extra_items_body(rng, tags)])
     else:
         body = rand_send(rng, tags, route_cfg, fail)
     return {"sess": sess, "status": status, "ctx": rand_ctx(rng, used), "opt": opt, "body": body}
@@ -857,6 +871,8 @@ def small_cases():
                        "cpath": [["c", 2], ["i", 1]]}),
         "items-1": {"k": "items", "unit": False, "iface": 0, "timeout": 5, "items": [[0, []]]},
         "items-0": {"k": "items", "unit": False, "iface": 0, "timeout": 5, "items": []},
+        "items-3": {"k": "items", "unit": False, "iface": 0, "timeout": 5,
+                    "items": [[0, []], [0xb2, list(cip_bytes({"req": rdA}))], [0x8000, [0, 2, 0xaf, 0x12] + [0] * 12]]},
         "xcmd": {"k": "xcmd", "cmd": 0x99, "data": []},
         "nop": {"k": "xcmd", "cmd": 0, "data": [1, 2]},
         "regshort": {"k": "regshort", "data": [1, 0]},
@@ -1066,7 +1082,19 @@ def oracle_run(case, frames, replies, label):
             return f"{label}: reply to #{i} has session handle {r['sess']:#x}, request {fr['sess']:#x}"
         if malformed:
             if r["status"] == 0:
-                return f"{label}: unparsable request #{i} answered with status 0"
+                if kind != "items":
+                    return f"{label}: unparsable request #{i} answered with status 0"
+                # a SendRRData whose item list is not [null address, unconnected data]: either it is unsupported
+                # (non-zero status), or it is served -- then inside the SendRRData framing, with the reply bit
+                sp = parse_send_payload(r["payload"])
+                reqs = [bytes(b) for t, b in body["items"] if t == 0xb2 and b]
+                if sp is None or sp[2] is None or [t for t, _ in sp[2]] != [0, 0xb2] or sp[2][0][1] != b"":
+                    got = "unreadable" if sp is None or sp[2] is None else [hex(t) for t, _ in sp[2]]
+                    return (f"{label}: request #{i} with CPF items {[hex(t) for t, _ in body['items']]} answered with "
+                            f"status 0 and CPF items {got}: neither refused nor [null address, unconnected data]")
+                if not reqs or not sp[2][1][1] or sp[2][1][1][0] != (reqs[0][0] | 0x80):
+                    return f"{label}: request #{i} (CPF items {[hex(t) for t, _ in body['items']]}) answered with status 0 without its service code | 0x80"
+                continue
             ended = True
             continue
         if kind == "reg":
